@@ -2,8 +2,8 @@
    Directives: exactly those of ExtrOcamlBasic.  Run by setup.sh inside
    ocaml/gen (the output file lands in the current directory). *)
 From Coq Require Import Extraction ExtrOcamlBasic.
-From V Require Import Lib.Sexp Wire.C15 Wire.Abi Wire.Validate Wire.Verify Wire.Rtmr Wire.Retry Wire.PckExt Wire.Heap Wire.Ccel.
+From V Require Import Lib.Sexp Wire.C15 Wire.Abi Wire.Validate Wire.Verify Wire.Rtmr Wire.Retry Wire.PckExt Wire.Heap Wire.Ccel Wire.CheckTool.
 Extraction Language OCaml.
 Definition byte_of_N_opt := Byte.of_N.
 Definition byte_to_N := Byte.to_N.
-Extraction "model.ml" sexp byte_of_N_opt byte_to_N run_C15 run_abi run_val run_verify run_rtmr run_retry run_pck run_heap run_ccel.
+Extraction "model.ml" sexp byte_of_N_opt byte_to_N run_C15 run_abi run_val run_verify run_rtmr run_retry run_pck run_heap run_ccel run_checktool.
